@@ -261,27 +261,35 @@ def _clone_semantic(chk):
 
     vmod = chk.repo.mod("tree.verbs")
     anchor = vmod.func("Verb._clone")
+    results = []
     try:
         w = CloneWorld(chk.repo)
-        root = w.sample()
-        before = ExprWorld.children_struct(root)
-        cl = w.p.call(w.p.method(root, "clone"), [])
-        after = ExprWorld.children_struct(root)
-        n0, n1 = w.nodes(root), w.nodes(cl)
-        refs0, refs1 = w.col_refs(root), w.col_refs(cl)
-        s0, s1 = w.def_sites(root), w.def_sites(cl)
+        for label, root in (("every verb class, aliases, join of two sources, union", w.sample()), ("self-join of one source with a partially aliased aggregate", w.sample_self_join())):
+            before = ExprWorld.children_struct(root)
+            cl = w.p.call(w.p.method(root, "clone"), [])
+            after = ExprWorld.children_struct(root)
+            results.append((label, before, after, w.nodes(root), w.nodes(cl), w.col_refs(root), w.col_refs(cl), w.def_sites(root), w.def_sites(cl)))
     except (AnalysisError, SymbolicBranch) as e:
         chk.undecided.append(f"CLONEv: clone() could not be interpreted on the stub pipeline: {str(e)[:200]}")
         return False
     except PyRaise as p:
         chk.ob("CLONEv", vmod, anchor, "clone() of the sample pipeline", False, f"clone() raises {p.name} on a well-formed tree: {p.msg}")
         return True
+    for label, before, after, n0, n1, refs0, refs1, s0, s1 in results:
+        _judge_clone(chk, w, vmod, anchor, label, before, after, n0, n1, refs0, refs1, s0, s1)
+    return True
+
+
+def _judge_clone(chk, w, vmod, anchor, label, before, after, n0, n1, refs0, refs1, s0, s1):
+    from ..exprsim import ExprWorld
+    from ..interp import Obj
+
     classes = sorted({n.cls.name for n in n0})
-    chk.ob("CLONEv", vmod, anchor, f"clone() leaves the tree untouched ({len(n0)} nodes, classes {classes})", before == after,
+    chk.ob("CLONEv", vmod, anchor, f"[{label}] clone() leaves the tree untouched ({len(n0)} nodes, classes {classes})", before == after,
            "clone() modifies the tree it copies (an attribute or container of an original node changed)")  # fmt: skip
     same_shape = [a.cls.name for a in n0] == [b.cls.name for b in n1]
     shared_nodes = [a.cls.name for a in n1 if any(a is b for b in n0)]
-    chk.ob("CLONEv", vmod, anchor, "every node of the clone is a new object of the same class", same_shape and not shared_nodes,
+    chk.ob("CLONEv", vmod, anchor, f"[{label}] every node of the clone is a new object of the same class", same_shape and not shared_nodes,
            f"clone() shares nodes with the original tree ({shared_nodes}) or changes its shape: a compiler that rewrites the clone in place "
            "(alias names, needed columns, grouping lists) rewrites the user's table")  # fmt: skip
     ew = ExprWorld.__new__(ExprWorld)
@@ -296,26 +304,28 @@ def _clone_semantic(chk):
 
     e0 = {id(x) for x in exprs(n0)}
     shared = [f"{x.cls.name}" for x in exprs(n1) if id(x) in e0]
-    chk.ob("CLONEv", vmod, anchor, f"every expression object of the clone is new ({len(exprs(n1))} objects)", not shared,
+    chk.ob("CLONEv", vmod, anchor, f"[{label}] every expression object of the clone is new ({len(exprs(n1))} objects)", not shared,
            f"clone() shares expression objects with the original tree ({sorted(set(shared))}): caches written on them during compilation "
            "(ftype / dtype, resolved columns) leak into the user's expressions")  # fmt: skip
     ids0 = {u for n in n0 for u in (n.attrs.get("uuids") or [])} | {c.attrs["_uuid"] for n in n0 if n.cls.name == "StubLeaf" for c in n.attrs["cols"].values()}
     ids1 = {u for n in n1 for u in (n.attrs.get("uuids") or [])} | {c.attrs["_uuid"] for n in n1 if n.cls.name == "StubLeaf" for c in n.attrs["cols"].values()}
-    chk.ob("CLONEv", vmod, anchor, f"column identities are regenerated ({len(ids1)} identities)", len(ids1) == len(ids0) and not (ids0 & ids1),
+    chk.ob("CLONEv", vmod, anchor, f"[{label}] column identities are regenerated ({len(ids1)} identities)", len(ids1) >= len(ids0) and not (ids0 & ids1),
            f"the clone keeps column identities of the original ({len(ids0 & ids1)} shared): a self-join of a table with itself resolves both "
            "sides to the same columns")  # fmt: skip
     bad = []
     if len(refs0) != len(refs1):
         bad.append(f"{len(refs0)} references in the original, {len(refs1)} in the clone")
     for (i, k, c0), (j, k2, c1) in zip(refs0, refs1):
-        d0, d1 = s0.get(c0.attrs["_uuid"]), s1.get(c1.attrs["_uuid"])
-        a0 = next((x for x, n in enumerate(n0) if n is c0.attrs["_ast"]), None)
+        d0, d1 = s0.resolve(i, c0.attrs["_uuid"], False), s1.resolve(j, c1.attrs["_uuid"], False)
+        # the table node a reference carries: some occurrence of the original's node (a source shared by both inputs of a
+        # self-join occurs twice and is cloned twice; which copy the reference carries is not observable, its identity is)
+        occ0 = {x for x, n in enumerate(n0) if n is c0.attrs["_ast"]}
+        a0 = min(occ0) if occ0 else None
         a1 = next((x for x, n in enumerate(n1) if n is c1.attrs["_ast"]), None)
-        if (i, k) != (j, k2) or d0 is None or d0 != d1 or a0 != a1:
+        if (i, k) != (j, k2) or d0 is None or d0 != d1 or (a1 not in occ0 and not (a0 is None and a1 is None)):
             bad.append(f"{n0[i].cls.name}.{k}: `{c0.attrs['name']}` defined at {d0} / table node {a0} -> clone {d1} / {a1}")
-    chk.ob("CLONEv", vmod, anchor, f"every column reference of the clone denotes the clone of the column it denoted ({len(refs0)} references, through aliases and a self-join)",
-           not bad, "after clone() a column reference resolves to another column / table node: " + "; ".join(bad[:4]))  # fmt: skip
-    return True
+    chk.ob("CLONEv", vmod, anchor, f"[{label}] every column reference of the clone denotes the clone of the column it denoted ({len(refs0)} references)",
+           not bad, f"[{label}] after clone() a column reference resolves to another column / table node: " + "; ".join(bad[:4]))  # fmt: skip
 
 
 def _clone_rule(chk, sym):
